@@ -84,6 +84,18 @@ class Engine:
         self.pre = f"C18/{scn}"
         self.static_boxes = mode in ("threads_preempt", "asyncio")
         self.stop = False
+        L, S = self.L, self.S
+
+        def app(environ, start_response):
+            # data stored during a request is released when the server closes the response - in that context only
+            setattr(L, environ["sim.name"], environ["sim.value"])
+            S.push(environ["sim.value"])
+            start_response("200 OK", [])
+            return [b"a", b"b", b"c"]
+
+        # one wrapped application serves every request, as in a deployed server
+        self.mw = self.manager.make_middleware(app)
+        self.pending: dict[int, object] = {}  # context -> response iterable of the request in flight there
 
     # -- helpers -----------------------------------------------------------
     def vio(self, what: str, msg: str) -> None:
@@ -205,13 +217,7 @@ class Engine:
             elif kind == "wsgi":
                 # a request served through LocalManager.make_middleware: data stored during the request is
                 # released when the server closes the response - in this context only
-                def app(environ, start_response):
-                    setattr(L, name, int(a2))
-                    S.push(int(a2))
-                    start_response("200 OK", [])
-                    return [b"a", b"b", b"c"]
-
-                it = self.manager.make_middleware(app)({"REQUEST_METHOD": "GET"}, lambda *a, **k: None)
+                it = self.mw({"REQUEST_METHOD": "GET", "sim.name": name, "sim.value": int(a2)}, lambda *a, **k: None)
                 m.attrs[name] = int(a2)
                 m.stack.append(int(a2))
                 n_items = 0
@@ -227,6 +233,24 @@ class Engine:
                 m.stack = []
                 self.out.fault("context_release")
                 self.out.probe("middleware_request_released")
+            elif kind == "wsgi_begin":
+                # the same, split in two so that requests in different contexts overlap
+                if c in self.pending:
+                    return
+                self.pending[c] = self.mw({"REQUEST_METHOD": "GET", "sim.name": name, "sim.value": int(a2)}, lambda *a, **k: None)
+                m.attrs[name] = int(a2)
+                m.stack.append(int(a2))
+            elif kind == "wsgi_end":
+                if c not in self.pending:
+                    return
+                it = self.pending.pop(c)
+                next(iter(it), None)
+                it.close()
+                m.attrs = {}
+                m.stack = []
+                self.out.fault("context_release")
+                if self.pending:
+                    self.out.probe("request_closed_while_another_in_flight")
             elif kind == "cvset":
                 self.CV.set(int(a2))
                 m.cv = int(a2)
@@ -338,7 +362,7 @@ class Engine:
             return type(e).__name__
 
 
-OPKINDS = ["set", "set", "set", "setbox", "wsgi", "get", "del", "iter", "push", "push", "pushbox", "pop", "top", "release", "cvset", "mkproxy", "pread", "pread", "pread", "pmut", "spawn"]
+OPKINDS = ["set", "set", "set", "setbox", "wsgi", "wsgi_begin", "wsgi_end", "get", "del", "iter", "push", "push", "pushbox", "pop", "top", "release", "cvset", "mkproxy", "pread", "pread", "pread", "pmut", "spawn"]
 
 
 class LocalsIsolation(Scenario):
@@ -371,7 +395,7 @@ class LocalsIsolation(Scenario):
                     ops.append([c, "spawn"])
                     nctx += 1
                     continue
-            if k in ("set", "push", "cvset", "pmut", "wsgi"):
+            if k in ("set", "push", "cvset", "pmut", "wsgi", "wsgi_begin"):
                 uniq += 1
                 ops.append([c, k, rng.randrange(3), 0 if k in ("set", "push", "cvset") and rng.random() < 0.12 else uniq])
             elif k in ("setbox", "pushbox"):
@@ -382,6 +406,17 @@ class LocalsIsolation(Scenario):
                 ops.append([c, k, rng.randrange(8), 0])
             else:
                 ops.append([c, k, rng.randrange(3), 0])
+        if nctx >= 2 and rng.random() < 0.15:
+            # two requests in flight at once in different contexts, closed in either order
+            c1, c2 = rng.sample(range(roots), 2) if roots >= 2 else (0, nctx - 1)
+            pat = [[c1, "wsgi_begin", rng.randrange(3), uniq + 1], [c2, "wsgi_begin", rng.randrange(3), uniq + 2], [rng.choice([c1, c2]), "wsgi_end", 0, 0], [c1, "wsgi_end", 0, 0], [c2, "wsgi_end", 0, 0]]
+            at = sorted(rng.randrange(len(ops) + 1) for _ in pat)
+            if roots < 2:
+                # the second context only exists after its spawn
+                first = next((i for i, o in enumerate(ops) if o[1] == "spawn"), len(ops)) + 1
+                at = sorted(rng.randrange(min(first, len(ops)), len(ops) + 1) for _ in pat)
+            for off, (i, o) in enumerate(zip(at, pat)):
+                ops.insert(i + off, o)
         if mode == "asyncio":
             for _ in range(rng.choice([0, 0, 1, 2])):
                 ops.insert(rng.randrange(len(ops) + 1), [rng.randrange(nctx), rng.choice(["sleep", "sleep", "cancel"]), rng.randrange(nctx), rng.choice([0, 1, 30])])
@@ -413,7 +448,7 @@ class LocalsIsolation(Scenario):
         out.digest = tr.digest()
         out.trace = tr.events
         out.steps = len(interleaving)
-        mutators = {c for c, k in interleaving if k in ("set", "setbox", "push", "pushbox", "pop", "del", "release", "cvset", "wsgi")}
+        mutators = {c for c, k in interleaving if k in ("set", "setbox", "push", "pushbox", "pop", "del", "release", "cvset", "wsgi", "wsgi_begin", "wsgi_end")}
         out.nontrivial = len(mutators) >= 2
         out.key = mode + "|" + ";".join(f"{c}{k}" for c, k in interleaving)
         out.config = mode
